@@ -2,6 +2,7 @@
    retransmission and result (C10), origin of a result (C11), for every
    script of per-attempt outcomes (induction on the script). *)
 From BMC Require Import Base BaseFacts Prim Layers Layers2 Serialize Packet Conn.
+From BMC Require SpecRequests RequestProofs.
 From Coq Require Import ZifyN ZifyNat ZifyBool.
 Ltac Zify.zify_post_hook ::= Z.div_mod_to_equations.
 
@@ -229,4 +230,31 @@ Theorem session_send_refused s o lun r script seq ivs :
   lr_outcome (session_send s seq ivs o lun r script) = OSerialize.
 Proof.
   intros H. unfold session_send. destruct (ser_request r []) as [body| |]; [exfalso; apply (H body); reflexivity| |]; auto.
+Qed.
+
+(* V2Session.Close: the request data of the Close Session it sends is the managed system's session ID, which the
+   specification's parser (22.19) reads back as "close the session with this ID" *)
+Theorem close_names_bmc_session : forall s,
+  0 < s_remote_id s < 4294967296 ->
+  ser_request (close_request s) [] = Ok (put_le32 (s_remote_id s)) /\
+  SpecRequests.SpecParse.request_body SpecRequests.SpecParse.KCloseSession (put_le32 (s_remote_id s)) = Some (RqCloseSession (s_remote_id s) 0).
+Proof.
+  intros s H. assert (S : ser_request (close_request s) [] = Ok (put_le32 (s_remote_id s))).
+  { unfold close_request, ser_request. rewrite RequestProofs.u32_small by lia.
+    destruct (N.eqb_spec (s_remote_id s) 0); [lia|]. cbn [app]. rewrite app_nil_r. reflexivity. }
+  split; [exact S|]. apply RequestProofs.rb_closesession; [|exact S].
+  unfold SpecRequests.SpecParse.wf_request. change (2 ^ 32) with 4294967296.
+  destruct (N.ltb_spec (s_remote_id s) 4294967296); [|lia].
+  destruct (N.eqb_spec (s_remote_id s) 0); [lia|]. reflexivity.
+Qed.
+
+Theorem session_close_seq : forall s script seq ivs,
+  s_remote_id s < 4294967296 -> seq + N.of_nat (length script) < 4294967296 ->
+  let res := session_close s seq ivs script in
+  map seq_field (lr_sent res) = count_from (seq + 1) (length (lr_sent res)) /\
+  Forall (fun dg => id_field dg = s_remote_id s) (lr_sent res) /\
+  lr_seq res = seq + N.of_nat (length (lr_sent res)).
+Proof.
+  intros s script seq ivs Hid Hb. cbn zeta. unfold session_close.
+  destruct (session_send_seq s op_close_session 0 (close_request s) script seq ivs Hid Hb) as [A [B [C _]]]. auto.
 Qed.
